@@ -24,6 +24,7 @@ type c13EffSrc struct {
 	fset  *token.FileSet
 	funcs map[string]*ast.FuncDecl // "Recv.Name"
 	plain map[string]*ast.FuncDecl // package-level functions
+	ptrVar string
 }
 
 func c13EffParse() (*c13EffSrc, error) {
@@ -59,9 +60,24 @@ func c13Bad(txt string) string { return "⟨.always, .bad " + strconv.Quote(txt)
 func (src *c13EffSrc) body(recvType, recv, param string, stmts []ast.Stmt, guard string, depth int) []string {
 	var out []string
 	emit := func(e string) { out = append(out, "⟨."+guard+", ."+e+"⟩") }
+	ptrVar := src.ptrVar // local holding param.Pointer() (Document.addPointerToCache), also seen by nested blocks
 	for _, st := range stmts {
 		txt := printNode(src.fset, st)
 		switch s := st.(type) {
+		case *ast.SwitchStmt:
+			// switch param.Tag() { case TagFamily: … }: the statements under the guard "the record is a family"
+			if recvType != "Document" || guard != "always" || s.Init != nil || s.Tag == nil || printNode(src.fset, s.Tag) != param+".Tag()" {
+				out = append(out, c13Bad("switch "+txt))
+				continue
+			}
+			for _, cc := range s.Body.List {
+				clause, ok := cc.(*ast.CaseClause)
+				if !ok || len(clause.List) != 1 || printNode(src.fset, clause.List[0]) != "TagFamily" {
+					out = append(out, c13Bad("case "+printNode(src.fset, cc)))
+					continue
+				}
+				out = append(out, src.body(recvType, recv, param, clause.Body, "isFamily", depth)...)
+			}
 		case *ast.ExprStmt:
 			call, ok := s.X.(*ast.CallExpr)
 			if !ok {
@@ -77,11 +93,24 @@ func (src *c13EffSrc) body(recvType, recv, param string, stmts []ast.Stmt, guard
 				emit("resetOwnFamily")
 			case recvType == "Document" && txt == recv+".buildPointerCache()":
 				emit("rebuildPointers")
+			case recvType == "Document" && guard == "hasPointer" && ptrVar != "" && txt == recv+".pointerCache.Store("+ptrVar+", "+param+")":
+				emit("storePointer")
 			case strings.HasPrefix(txt, recv+".") && strings.HasSuffix(txt, "Mutex.Lock()") && strings.Count(txt, ".") == 2:
 				emit("lock")
 			case strings.HasPrefix(txt, recv+".") && strings.HasSuffix(txt, "Mutex.Unlock()") && strings.Count(txt, ".") == 2:
 				emit("unlock")
 			default:
+				// a helper of the same receiver that is handed the parameter on: its body, inlined
+				if sel, ok := call.Fun.(*ast.SelectorExpr); ok && len(call.Args) == 1 && param != "" && printNode(src.fset, call.Args[0]) == param && depth > 0 {
+					if x, ok := sel.X.(*ast.Ident); ok && x.Name == recv {
+						if h, ok := src.funcs[recvType+"."+sel.Sel.Name]; ok && h.Body != nil && !ast.IsExported(sel.Sel.Name) &&
+							h.Type.Params != nil && len(h.Type.Params.List) == 1 && len(h.Type.Params.List[0].Names) == 1 &&
+							(h.Type.Results == nil || len(h.Type.Results.List) == 0) && len(h.Recv.List[0].Names) == 1 {
+							out = append(out, src.body(recvType, h.Recv.List[0].Names[0].Name, h.Type.Params.List[0].Names[0].Name, h.Body.List, guard, depth-1)...)
+							continue
+						}
+					}
+				}
 				// a helper of the same receiver without arguments: its body, inlined
 				if sel, ok := call.Fun.(*ast.SelectorExpr); ok && len(call.Args) == 0 && depth > 0 {
 					if x, ok := sel.X.(*ast.Ident); ok && x.Name == recv {
@@ -108,6 +137,13 @@ func (src *c13EffSrc) body(recvType, recv, param string, stmts []ast.Stmt, guard
 				emit("rootsErase")
 			case recvType == "Document" && param != "" && txt == recv+".nodes = "+param:
 				emit("rootsSet")
+			case recvType == "Document" && param != "" && txt == recv+".nodes = append("+recv+".nodes, "+param+")":
+				emit("rootsAppend")
+			case recvType == "Document" && param != "" && s.Tok == token.DEFINE && len(s.Lhs) == 1 && len(s.Rhs) == 1 &&
+				printNode(src.fset, s.Rhs[0]) == param+".Pointer()":
+				ptrVar = printNode(src.fset, s.Lhs[0])
+				src.ptrVar = ptrVar
+				emit("readPointer")
 			case txt == "nodeCache = &sync.Map{}":
 				emit("resetNodeCache")
 			case recvType == "Document" && txt == recv+".families = nil":
@@ -129,6 +165,12 @@ func (src *c13EffSrc) body(recvType, recv, param string, stmts []ast.Stmt, guard
 		case *ast.IfStmt:
 			cond := printNode(src.fset, s.Cond)
 			switch {
+			case guard == "always" && s.Init == nil && s.Else == nil && recvType == "Document" && param != "" && cond == "!IsNil("+param+")":
+				// the model never hands over nil: the body runs
+				emit("nilCheck")
+				out = append(out, src.body(recvType, recv, param, s.Body.List, guard, depth)...)
+			case guard == "always" && s.Init == nil && s.Else == nil && recvType == "Document" && ptrVar != "" && cond == ptrVar+` != ""`:
+				out = append(out, src.body(recvType, recv, param, s.Body.List, "hasPointer", depth)...)
 			case guard == "always" && s.Init == nil && s.Else == nil && cond == "didDelete":
 				out = append(out, src.body(recvType, recv, param, s.Body.List, "deleted", depth)...)
 			case guard == "always" && s.Init == nil && s.Else == nil && recvType == "FamilyNode" && cond == recv+".document != nil":
@@ -161,7 +203,9 @@ func (src *c13EffSrc) method(recvType, name string) string {
 	if param == "" {
 		return "[" + c13Bad("method "+recvType+"."+name+" does not take one parameter") + "]"
 	}
+	src.ptrVar = ""
 	effs := src.body(recvType, fd.Recv.List[0].Names[0].Name, param, fd.Body.List, "always", 2)
+	src.ptrVar = ""
 	return "[" + strings.Join(effs, ", ") + "]"
 }
 
@@ -344,6 +388,7 @@ func init() {
 			{"familyAddNode", "FamilyNode", "AddNode"}, {"familyDeleteNode", "FamilyNode", "DeleteNode"}, {"familySetNodes", "FamilyNode", "SetNodes"},
 			{"individualAddNode", "IndividualNode", "AddNode"}, {"individualDeleteNode", "IndividualNode", "DeleteNode"}, {"individualSetNodes", "IndividualNode", "SetNodes"},
 			{"documentDeleteNode", "Document", "DeleteNode"}, {"documentSetNodes", "Document", "SetNodes"},
+			{"documentAddNode", "Document", "AddNode"},
 		} {
 			fmt.Fprintf(&b, "/-- %s.%s -/\ndef %s : List GEff :=\n  %s\n\n", m.typ, m.name, m.lean, src.method(m.typ, m.name))
 		}
